@@ -33,7 +33,7 @@ ModeProps(m) ==
       [] m \in {"parfix", "parfb"} -> {"C18"}
       [] m = "parpcycle" -> {"C14"}
       [] m = "parintern" -> {"C08"}
-      [] m = "parstruct" -> {"C24"}
+      [] m \in {"parstruct", "paralloc"} -> {"C24"}
       [] m \in {"parwrite", "parwritefix"} -> {"C20"}
       [] m \in {"parcancel", "parcancelfix"} -> {"C21"}
       [] m = "parpanic" -> {"C22"}
@@ -48,7 +48,8 @@ Fresh(p, mode, inject) ==
     IN [rev |-> 1, inp |-> inp, cell |-> p.cells, sem |-> SemOf(p, SVals(inp, p.cells)), mode |-> mode,
         cur |-> <<>>, execd |-> {}, live |-> {}, dropb |-> {}, pend |-> [op |-> "none"], flag |-> FALSE,
         mustpw |-> {}, stack |-> <<>>, creq |-> <<>>, cused |-> <<>>, armed |-> {}, mustloc |-> {},
-        inject |-> inject, injected |-> FALSE, panicked |-> FALSE, canon |-> <<>>, ids |-> <<>>]
+        inject |-> inject, injected |-> FALSE, panicked |-> FALSE, canon |-> <<>>, ids |-> <<>>,
+        pslot |-> <<>>, pown |-> <<>>, allocs |-> 0]
 
 ev == Rec[l]
 T == ev.t
@@ -147,12 +148,61 @@ OnRd ==
          /\ st' = st
     ELSE st' = st
 
+\* ---- C24: identities handed out by the page allocator (page = index \div 128, slot = index % 128) ----
+PageOf(ix) == ix \div 128
+SlotOf(ix) == ix % 128
+\* a fresh slot (generation 0) is allocated: slots of a page are handed out in increasing order, and a page
+\* is filled by one live handle at a time
+AllocChecks(ix, gn) ==
+    LET p == PageOf(ix) s == SlotOf(ix)
+        last == Get(st.pslot, p, -1)
+        writers == Get(st.pown, p, {})
+    IN (gn = 0) =>
+        /\ Check("C24", s > last, <<"slot of a page handed out twice / out of order", ix, p, s, last>>)
+        /\ Check("C24", \A w \in writers : w = T \/ w \in st.dropb \/ w \notin st.live, <<"page used by two live handles", p, writers, T>>)
+AllocUpd(s0, ix, gn) ==
+    IF gn = 0 THEN [s0 EXCEPT !.pslot = Put(s0.pslot, PageOf(ix), SlotOf(ix)),
+                              !.pown = Put(s0.pown, PageOf(ix), {w \in Get(s0.pown, PageOf(ix), {}) : w \in s0.live /\ w \notin s0.dropb} \cup {T}),
+                              !.allocs = s0.allocs + 1]
+    ELSE s0
+
 OnNew ==
     \* identities of structs created concurrently are pairwise distinct (C24)
     LET nk == "T@" \o ev.id IN
     /\ Check("C24", (nk \notin DOMAIN st.ids) \/ st.ids[nk] = <<ev.k, ev.ident>>,
              <<"identity handed out twice", ev.id, ev.k, T>>)
-    /\ st' = [st EXCEPT !.ids = Put(st.ids, nk, <<ev.k, ev.ident>>)]
+    /\ ((nk \notin DOMAIN st.ids) => AllocChecks(ev.ix, ev.gn))
+    /\ st' = IF nk \in DOMAIN st.ids THEN st ELSE AllocUpd([st EXCEPT !.ids = Put(st.ids, nk, <<ev.k, ev.ident>>)], ev.ix, ev.gn)
+
+OnNewIn ==
+    LET nk == "In@" \o ev.id IN
+    /\ Check("C24", nk \notin DOMAIN st.ids, <<"input identity handed out twice", ev.id, T>>)
+    /\ AllocChecks(ev.ix, ev.gn)
+    /\ st' = AllocUpd([st EXCEPT !.ids = Put(st.ids, nk, <<ev.a, ev.b>>)], ev.ix, ev.gn)
+
+OnRdIn ==
+    LET nk == "In@" \o ev.id IN
+    /\ Check("C24", nk \in DOMAIN st.ids /\ st.ids[nk] = <<ev.a, ev.b>>, <<"input does not read back the fields it was created with", ev.id, ev.a, ev.b>>)
+    /\ st' = st
+
+OnTIntern ==
+    LET key == <<ev.kind, ev.v>> nk == "I" \o ToString(ev.kind) \o "@" \o ev.id IN
+    /\ (key \in DOMAIN st.canon) =>
+          CheckAll({"C24", "C08"}, st.canon[key] = ev.id, <<"equal values interned to different handles", key, st.canon[key], ev.id, T>>)
+    /\ CheckAll({"C24", "C08"}, \A k2 \in DOMAIN st.canon : k2 # key => st.canon[k2] # ev.id \/ k2[1] # ev.kind,
+                <<"unequal values interned to the same handle", key, ev.id>>)
+    /\ st' = IF key \in DOMAIN st.canon THEN st
+             ELSE [st EXCEPT !.canon = Put(st.canon, key, ev.id), !.ids = Put(st.ids, nk, ev.v)]
+
+\* DidInternValue: a fresh slot was allocated by this thread (emitted inside intern_id, under the shard lock)
+OnDiv ==
+    /\ AllocChecks(ev.ix, ev.gn)
+    /\ st' = AllocUpd(st, ev.ix, ev.gn)
+
+OnTRdInt ==
+    LET nk == "I" \o ToString(ev.kind) \o "@" \o ev.id IN
+    /\ CheckAll({"C24", "C08"}, nk \in DOMAIN st.ids /\ st.ids[nk] = ev.v, <<"interned value does not read back", ev.id, ev.v>>)
+    /\ st' = st
 
 TraceInit ==
     /\ l = 1
@@ -172,7 +222,12 @@ TraceNext ==
                                     LET s == Get(st.stack, T, <<>>) IN IF s = <<>> THEN s ELSE SubSeq(s, 1, Len(s) - 1))]
          [] ev.e = "int" -> OnInt /\ TRUE
          [] ev.e = "new" -> OnNew
-         [] ev.e = "round" -> st' = [st EXCEPT !.live = {}, !.dropb = {}, !.cur = <<>>, !.stack = <<>>, !.mustpw = {},
+         [] ev.e = "newin" -> OnNewIn
+         [] ev.e = "rdin" -> OnRdIn
+         [] ev.e = "tintern" -> OnTIntern
+         [] ev.e = "div" -> OnDiv
+         [] ev.e = "trdint" -> OnTRdInt
+         [] ev.e = "round" -> st' = [st EXCEPT !.live = {}, !.dropb = {}, !.cur = <<>>, !.stack = <<>>, !.mustpw = {}, !.pown = <<>>,
                                               !.mustloc = {}, !.armed = {}, !.flag = FALSE]
          [] ev.e = "clone" -> st' = [st EXCEPT !.live = st.live \cup {ev.h}]
          [] ev.e = "drop_begin" -> st' = [st EXCEPT !.dropb = st.dropb \cup {ev.h}]
